@@ -67,7 +67,7 @@ ASSUMPTIONS = [
     "Files are read back with Bio.SeqIO and loaded with taxon 'bacteria', as antiSMASH does for its own results; "
     "qualifier values are compared with whitespace removed (GenBank line wrapping), strandless features as forward.",
 ]
-REQUIRED = ["op:file-sequence", "op:feature-same-bases", "op:feature-sequence", "op:numbering", "op:xref:core_location",
+REQUIRED = ["glue:region-file", "op:file-sequence", "op:feature-same-bases", "op:feature-sequence", "op:numbering", "op:xref:core_location",
             "op:xref:proto_core", "op:xref:protoclusters", "op:xref:candidate_cluster_numbers",
             "op:xref:subregion_numbers", "op:xref:leader_location", "op:xref:tail_location", "op:reload",
             "op:reload-content", "op:parent-unchanged:biopython", "op:parent-unchanged:secmet",
@@ -758,16 +758,90 @@ def classify_region(ctx, view: RegionView, record):
             ctx.count("feature:origin-spanning-gene-cut-by-region-border")
 
 
+def write_outputs_glue(ctx, worlds, workdir):
+    """ the region files as a run writes them: main.write_outputs converts every record of the run once and hands
+        each region its record's conversion; records that were skipped (too short, beyond --limit, nothing
+        detected) sit between the others """
+    import antismash.main as main_module
+    from antismash.common import serialiser
+    from antismash.config import build_config, destroy_config
+    outdir = os.path.join(workdir, "run")
+    shutil.rmtree(outdir, ignore_errors=True)
+    os.makedirs(outdir)
+    records = []
+    for k, world in enumerate(worlds):
+        if k % 2 == 0:
+            short = Record(Seq("ACGT" * (10 + k)), transl_table=11)
+            short.id = short.name = f"skipped{k}"
+            short.annotations.update({"molecule_type": "DNA", "topology": "linear"})
+            short.record_index = len(records) + 1
+            short.skip = "smaller than minimum length (1000)"
+            records.append(short)
+        try:
+            record, _ = build_record(world)
+        except (ValueError, AssertionError):
+            continue
+        if not record.get_regions():
+            continue
+        record.id = record.name = f"c12rec{k}"
+        record.annotations["accessions"] = [record.id]
+        record.record_index = len(records) + 1
+        records.append(record)
+    with_regions = [r for r in records if not r.skip]
+    if len(with_regions) < 2:
+        ctx.count("glue:too-few-records-with-regions")
+        return
+    case = {"glue": "write_outputs", "worlds": worlds}
+    destroy_config()
+    try:
+        options = build_config(["--minimal", "--no-zip-output", "--output-dir", outdir], isolated=True,
+                               modules=main_module.get_all_modules())
+        results = serialiser.AntismashResults("input.gbk", records, [{} for _ in records], "verif")
+        ctx.count("glue:write_outputs")
+        ok, _ = ctx.guard("write-outputs-crash", case, main_module.write_outputs, results, options)
+        if not ok:
+            return
+        for record in records:
+            for region in record.get_regions():
+                ctx.count("glue:region-file")
+                number = region.get_region_number()
+                filename = os.path.join(outdir, f"{record.id}.region{number:03d}.gbk")
+                facts = {"record": record.id, "region": str(region.location), "records_of_the_run": [r.id for r in records],
+                         "skipped": [r.id for r in records if r.skip]}
+                try:
+                    file_bio = SeqIO.read(filename, "genbank")
+                except Exception as err:  # pylint: disable=broad-except
+                    ctx.violate("run-region-file-unreadable", dict(facts, **core.crash_facts(err)), case)
+                    continue
+                expected = "".join(str(record.seq[int(part.start):int(part.end)]) for part in region.location.parts)
+                if str(file_bio.seq).upper() != expected.upper():
+                    ctx.violate("run-region-file-holds-its-regions-sequence",
+                                dict(facts, file_length=len(file_bio.seq), region_length=len(expected),
+                                     file_id=file_bio.id), case)
+                elif not any(f.type == "region" for f in file_bio.features):
+                    ctx.violate("run-region-file-holds-its-region-feature", facts, case)
+        extra = sorted(name for name in os.listdir(outdir) if ".region" in name and name.startswith("skipped"))
+        if extra:
+            ctx.violate("skipped-record-gets-no-region-file", {"files": extra}, case)
+    finally:
+        destroy_config()
+
+
 def run(ctx):
     logging.disable(logging.ERROR)   # antiSMASH logs refused worlds (overlapping regions); they are counted instead
     workdir = tempfile.mkdtemp(prefix="vf-c12-")
     try:
         n = ctx.quota(400, 12000)
+        recent = []
         for i in ctx.cases(n, every=4):
             rng = ctx.rng("world", i)
             size = "large" if (ctx.tier == "thorough" and i % 10 == 0) else ("plasmid" if i % 10 == 5 else "normal")
             world = W.gen_world(rng, size)
             run_world(ctx, world, workdir)
+            recent = (recent + [world])[-3:]
+            if i % 40 == 39:
+                ctx.guard("harness-or-crash", {"glue": "write_outputs", "worlds": recent}, write_outputs_glue, ctx,
+                          list(recent), workdir)
     finally:
         shutil.rmtree(workdir, ignore_errors=True)
 
@@ -775,6 +849,9 @@ def run(ctx):
 def replay(ctx, case):
     workdir = tempfile.mkdtemp(prefix="vf-c12-")
     try:
+        if case.get("glue") == "write_outputs":
+            write_outputs_glue(ctx, case["worlds"], workdir)
+            return
         run_world(ctx, case, workdir)
     finally:
         shutil.rmtree(workdir, ignore_errors=True)
